@@ -15,8 +15,10 @@ import Hv.Data.Treasure
 
 namespace Hv.Data
 
+/-- in-memory swamp; persistent with write interval 0 (`p0`: written inside `SaveFunction`, which
+    then also releases the record guard) or > 0 (`p1`: written by the ticker / at close) -/
 inductive Kind where
-  | mem | per
+  | mem | p0 | p1
   deriving DecidableEq, Repr, Inhabited
 
 inductive St where
@@ -71,7 +73,7 @@ inductive Req where
 
 inductive Resp where
   | err (code : String)
-  | setErr (e : String)
+  | setErr (e : String) (dup : Bool)    -- dup: the failed swamp got a second, empty response entry
   | sts (l : List St)
   | recs (l : List (Option Rec))
   | kvs (l : List (Key × Rec))
@@ -262,8 +264,8 @@ def delAll : Store → List Key → Store × List St
 def step (ar : Arith) (kind : Kind) (now : Int) (st : Store) : Req → Store × Resp
   | .set create over items =>
     if items.isEmpty then (st, .err "InvalidArgument")
-    else if !create && !over then (st, .setErr "CanNotBeExecuted")
-    else if !create && st.isEmpty then (st, .setErr "SwampDoesNotExist")
+    else if !create && !over then (st, .setErr "CanNotBeExecuted" false)
+    else if !create && st.isEmpty then (st, .setErr "SwampDoesNotExist" false)
     else
       let (st', ss) := setAll create over st items
       (st', .sts ss)
@@ -313,7 +315,7 @@ def step (ar : Arith) (kind : Kind) (now : Int) (st : Store) : Req → Store × 
   | .close =>
     match kind with
     | .mem => ([], .ok)
-    | .per => (st, .ok)
+    | _ => (st, .ok)
 
 end Spec
 
@@ -345,6 +347,13 @@ structure Cfg where
   noEmptyLive : Bool
   /-- `AreKeysExist` answers all-false for a missing swamp (false: FailedPrecondition first) -/
   arekAllFalse : Bool
+  /-- `Count` answers exists=false for a missing swamp (false: the FailedPrecondition of
+      `checkSwampName` is compared with NotFound and returned as an error) -/
+  countMissingOk : Bool
+  /-- a failed swamp of a `Set` request gets exactly one response entry -/
+  setErrSingle : Bool
+  /-- `SaveFunction` releases the record guard itself when the write interval is 0 -/
+  saveReleasesImmediate : Bool
   encoding : Encoding
   deriving DecidableEq, Repr
 
@@ -364,6 +373,8 @@ inductive Tag where
   | inflightReuse      -- `CreateTreasure` handed out a parked in-flight treasure
   | emptyLive          -- a request left an empty live swamp
   | arekPrecondition   -- `AreKeysExist` on a missing swamp answered FailedPrecondition
+  | countPrecondition  -- `Count` on a missing swamp answered FailedPrecondition
+  | setErrDup          -- a failed swamp of `Set` produced two response entries
   | zeroLikeDropped    -- close/reload changed a zero-like value into void
   deriving DecidableEq, Repr, Inhabited
 
@@ -646,7 +657,7 @@ inductive DelOut where
   | destroyed (tags : List Tag)
   | hang (tags : List Tag)
 
-def u32delOne (cfg : Cfg) (i : Inst) (p : Key × List Nat) : DelOut :=
+def u32delOne (cfg : Cfg) (kind : Kind) (i : Inst) (p : Key × List Nat) : DelOut :=
   match AL.find p.1 i.recs with
   | none => .cont i false []
   | some t =>
@@ -656,23 +667,25 @@ def u32delOne (cfg : Cfg) (i : Inst) (p : Key × List Nat) : DelOut :=
       let sr := delRaw t.c p.2
       let tgH : List Tag := if isSlice && !(match t.c.vis with | .u32s _ => true | _ => false) then [Tag.hiddenSlice] else []
       let t' : MRec := { t with c := sr.c, changed := t.changed || sr.changed }
-      let (i1, _, tg1) := save cfg i p.1 t' sr.changed
+      let (i1, st, tg1) := save cfg i p.1 t' sr.changed
       let size0 : Bool := match sr.c.slice with | none => true | some l => l.isEmpty
       if size0 then
         let tgN : List Tag := if isSlice then [] else [Tag.u32delNonSlice]
-        if !cfg.u32delReleases then .hang (tgH ++ tg1 ++ tgN ++ [Tag.u32delDeadlock])
+        -- the guard is still held unless Save let go of it (write interval 0, save not "same")
+        let released := cfg.u32delReleases || (cfg.saveReleasesImmediate && kind == .p0 && st != .same)
+        if !released then .hang (tgH ++ tg1 ++ tgN ++ [Tag.u32delDeadlock])
         else
           let i2 := deleteRec i1 p.1
           if i2.recs.isEmpty then .destroyed (tgH ++ tg1 ++ tgN) else .cont i2 false (tgH ++ tg1 ++ tgN)
       else .cont i1 false (tgH ++ tg1)
 
 /-- result: final instance (none = destroyed), error flag, hang flag, tags -/
-def u32delLoop (cfg : Cfg) : Inst → List (Key × List Nat) → Option Inst × Bool × Bool × List Tag
+def u32delLoop (cfg : Cfg) (kind : Kind) : Inst → List (Key × List Nat) → Option Inst × Bool × Bool × List Tag
   | i, [] => (some i, false, false, [])
   | i, p :: rest =>
-    match u32delOne cfg i p with
+    match u32delOne cfg kind i p with
     | .cont i1 e tg =>
-      let (r, es, h, tgs) := u32delLoop cfg i1 rest
+      let (r, es, h, tgs) := u32delLoop cfg kind i1 rest
       (r, e || es, h, tg ++ tgs)
     | .destroyed tg => (none, false, false, tg)   -- later pairs find nothing in the destroyed instance
     | .hang tg => (some i, false, true, tg)
@@ -692,8 +705,8 @@ def stepCore (cfg : Cfg) (ar : Arith) (now : Int) (s : State) (req : Req) : Out 
   match req with
   | .set create over items =>
     if items.isEmpty then ⟨s, .err "InvalidArgument", []⟩
-    else if !create && !over then ⟨s, .setErr "CanNotBeExecuted", []⟩
-    else if !create && !exists_ s then ⟨s, .setErr "SwampDoesNotExist", []⟩
+    else if !create && !over then ⟨s, .setErr "CanNotBeExecuted" (!cfg.setErrSingle), if cfg.setErrSingle then [] else [Tag.setErrDup]⟩
+    else if !create && !exists_ s then ⟨s, .setErr "SwampDoesNotExist" (!cfg.setErrSingle), if cfg.setErrSingle then [] else [Tag.setErrDup]⟩
     else
       let (i, ss, tg) := setLoop cfg create over (summon s) items
       let (s', tg') := settleAfterTouch cfg s i
@@ -726,7 +739,8 @@ def stepCore (cfg : Cfg) (ar : Arith) (now : Int) (s : State) (req : Req) : Out 
       -- DeleteTreasure destroys only after an actual delete
       if i.recs.isEmpty && !i0.recs.isEmpty then ⟨destroy s, .sts out, []⟩ else ⟨withLive s i, .sts out, []⟩
   | .count =>
-    if !exists_ s then ⟨s, .count none, []⟩
+    if !exists_ s then
+      if cfg.countMissingOk then ⟨s, .count none, []⟩ else ⟨s, .err "FailedPrecondition", [Tag.countPrecondition]⟩
     else
       let i := summon s
       ⟨withLive s i, .count (some i.recs.length), []⟩
@@ -749,7 +763,7 @@ def stepCore (cfg : Cfg) (ar : Arith) (now : Int) (s : State) (req : Req) : Out 
     let (s', tg') := settleAfterTouch cfg s i
     ⟨s', if e then .err "InvalidArgument" else .ok, tg ++ tg'⟩
   | .u32del pairs =>
-    match u32delLoop cfg (summon s) pairs with
+    match u32delLoop cfg s.kind (summon s) pairs with
     | (_, _, true, tg) => ⟨{ s with dead := true }, .hang, tg⟩
     | (none, e, false, tg) => ⟨destroy s, if e then .err "InvalidArgument" else .ok, tg⟩
     | (some i, e, false, tg) =>
@@ -779,7 +793,7 @@ def stepCore (cfg : Cfg) (ar : Arith) (now : Int) (s : State) (req : Req) : Out 
     | some i =>
       match s.kind with
       | .mem => ⟨{ s with live := none }, .ok, []⟩
-      | .per => ⟨{ s with live := none, file := flush cfg i s.file }, .ok, closeTags cfg i⟩
+      | _ => ⟨{ s with live := none, file := flush cfg i s.file }, .ok, closeTags cfg i⟩
 
 /-- the Spec-level view of a model state -/
 def abs (s : State) : Spec.Store :=
